@@ -1278,6 +1278,9 @@ func (ex *Exec) reportViolation(label string, fr *frame, needCheck bool) {
 			}
 		}
 	}
+	if ok && len(ex.crashImages) > 0 {
+		v.Crash = ex.dumpCrashImages()
+	}
 	ex.violation = v
 	ex.end(OutViolation, label)
 }
@@ -1317,6 +1320,9 @@ func (ex *Exec) modelForPath(label string) (v *Violation) {
 			}
 			v.Arrays[t.name] = bs
 		}
+	}
+	if len(ex.crashImages) > 0 {
+		v.Crash = ex.dumpCrashImages()
 	}
 	return v
 }
